@@ -48,16 +48,18 @@
   'claims':'DirectCmap::operator[]: plane split - code points above U+FFFF are answered by the format 12 subtable (0 if the face has none), all others by the format 4 subtable; the preconditions of both lookups hold at the call sites (subtables validated by bmp_subtable/smp_subtable, key 0); nothing is written'}@*/
 /*@unit {'name':'c13_subtables', 'props':['C13'], 'entry':'h_subtables', 'enforce':['bmp_subtable','smp_subtable'], 'replace':['FindCmapSubtable','CheckCmapSubtable4','CheckCmapSubtable12'], 'defines':['STUB_CHECKS'],
   'claims':'bmp_subtable / smp_subtable: the subtable chosen is the first one, in the order (3,1),(0,3),(0,2),(0,1),(0,0) resp. (3,10),(0,4) of (platform, encoding), that exists and passes CheckCmapSubtable4 resp. 12 against the end of the cmap table; NULL if there is none or the table is empty; a non-NULL result has passed its check'}@*/
+/*@unit {'name':'c13_find', 'props':['C13','C01'], 'entry':'h_find', 'enforce':'FindCmapSubtable', 'min_loops':1, 'defines':['FIND'],
+  'claims':'FindCmapSubtable on a cmap table of any content in an exact-size buffer (12 <= size <= MAXN, as CheckTable guarantees), any platform / encoding id (including -1): all reads inside the table, nothing written, the scan terminates; only the FIRST encoding record that matches is considered; a non-NULL result is table + the offset field of that record, with at least 2 bytes (format 4: 4, format 12: 6) before the end of the table'}@*/
 /*@unit {'name':'c13_cached_get', 'props':['C13','C01'], 'entry':'h_cached_get', 'enforce':'CachedCmap_lookup',
   'claims':'CachedCmap::operator[] for every 32-bit usv: the block index is below the number of allocated block pointers (0x100 when BMP only, else 0x1100), the entry index below 0x100; returns m_blocks[usv>>8][usv&0xFF], 0 for an absent block, for usv > 0x10FFFF and for usv > 0xFFFF when BMP only; nothing is written'}@*/
-/*@unit {'name':'c13_fill4', 'props':['C13','C01'], 'entry':'h_fill', 'enforce':'cache_subtable', 'min_loops':1, 'defines':['FMT=4','ASSUME_SORTED'], 'backend':'cvc5', 'cost':80,
+/*@unit {'name':'c13_fill4', 'props':['C13','C01'], 'entry':'h_fill', 'no_checks':['--bounds-check','--pointer-check','--div-by-zero-check','--signed-overflow-check','--undefined-shift-check','--pointer-primitive-check'], 'enforce':'cache_subtable', 'min_loops':1, 'defines':['FMT=4','ASSUME_SORTED'], 'backend':'cvc5', 'cost':80,
   'replace':['CmapSubtable4NextCodepoint','CmapSubtable4Lookup','cache_has_block','cache_alloc_block','cache_store'],
-  'claims':'cache_subtable<format 4> over the proved contracts of NextCodepoint/Lookup: every block index used is below 0x100, a store only goes into a present block, the loop terminates (also for unordered tables: prevCodePoint strictly increases); for an ordered table every code point g_x != U+0001 below the limit that lies in a segment is stored with the value GID4(segment, g_x) = the direct lookup, and only code points of segments are stored (the rest of the zero-filled cache means unmapped)'}@*/
+  'claims':'cache_subtable<format 4> over the proved contracts of NextCodepoint/Lookup (the unit performs no table or cache access of its own - the three accesses to blocks[] are accessor stubs whose preconditions are the memory-safety conditions - so the built-in pointer checks, which would only re-check the spec functions, are off): every block index used is below 0x100, a store only goes into a present block, the loop terminates (also for unordered tables: prevCodePoint strictly increases); for an ordered table every code point g_x != U+0001 below the limit that lies in a segment is stored with the value GID4(segment, g_x) = the direct lookup, and only code points of segments are stored (the rest of the zero-filled cache means unmapped)'}@*/
 /*@unit {'name':'c13_fill4_cover', 'props':['C13'], 'entry':'h_fill', 'no_checks':['--bounds-check','--pointer-check','--div-by-zero-check','--signed-overflow-check','--undefined-shift-check','--pointer-primitive-check'], 'enforce':'cache_subtable', 'min_loops':1, 'defines':['FMT=4','ASSUME_SORTED','COVER_ONE'], 'backend':'cvc5', 'cost':80,
   'replace':['CmapSubtable4NextCodepoint','CmapSubtable4Lookup','cache_has_block','cache_alloc_block','cache_store'],
   'replay':'c13_cmap', 'witness_defines':['FMT=4','ASSUME_SORTED','COVER_ONE'], 'witness_vars':['w_x'],
   'claims':'the same coverage clause for the code point U+0001 (fails on a tree where cache_subtable skips U+0001 after caching U+0000)'}@*/
-/*@unit {'name':'c13_fill12', 'props':['C13','C01'], 'entry':'h_fill', 'enforce':'cache_subtable', 'min_loops':1, 'defines':['FMT=12','ASSUME_SORTED'], 'backend':'cvc5', 'cost':80,
+/*@unit {'name':'c13_fill12', 'props':['C13','C01'], 'entry':'h_fill', 'no_checks':['--bounds-check','--pointer-check','--div-by-zero-check','--signed-overflow-check','--undefined-shift-check','--pointer-primitive-check'], 'enforce':'cache_subtable', 'min_loops':1, 'defines':['FMT=12','ASSUME_SORTED'], 'backend':'cvc5', 'cost':80,
   'replace':['CmapSubtable12NextCodepoint','CmapSubtable12Lookup','cache_has_block','cache_alloc_block','cache_store'],
   'claims':'cache_subtable<format 12> over the proved contracts: every block index used is below 0x1100, a store only goes into a present block, the loop terminates; for ordered groups every code point g_x != U+0001 below the limit that lies in a group is stored with its format 12 glyph, and only code points of groups are stored'}@*/
 /*@unit {'name':'c13_fill12_cover', 'props':['C13'], 'entry':'h_fill', 'no_checks':['--bounds-check','--pointer-check','--div-by-zero-check','--signed-overflow-check','--undefined-shift-check','--pointer-primitive-check'], 'enforce':'cache_subtable', 'min_loops':1, 'defines':['FMT=12','ASSUME_SORTED','COVER_ONE'], 'backend':'cvc5', 'cost':80,
@@ -65,6 +67,7 @@
   'replay':'c13_cmap', 'witness_defines':['FMT=12','ASSUME_SORTED','COVER_ONE'], 'witness_vars':['w_x'],
   'claims':'the same coverage clause for the code point U+0001, format 12'}@*/
 /*@unit {'name':'c13_cached_ctor', 'props':['C13'], 'entry':'h_ctor', 'enforce':'CachedCmap_ctor', 'replace':['Face_cmap_table','bmp_subtable','smp_subtable','grzeroalloc_blocks','cache_subtable_4','cache_subtable_12'], 'defines':['CTOR'],
+  'replay':'c13_cmap', 'witness_defines':['CTOR'], 'witness_vars':['w_x'],
   'claims':'CachedCmap::CachedCmap over the contract of cache_subtable (c13_fill*): 0x1100 block pointers are allocated exactly when a format 12 subtable exists (else 0x100) and each fill is called with a limit its block array covers; after a complete construction the entry of a BMP code point below U+FFFF that format 4 maps holds the format 4 glyph (the format 4 pass runs last), the entry of a code point in U+10000..U+10FFFE holds the format 12 glyph or 0'}@*/
 /*@unit {'name':'c13_cached_ctor_bmp', 'props':['C13'], 'entry':'h_ctor', 'enforce':'CachedCmap_ctor', 'replace':['Face_cmap_table','bmp_subtable','smp_subtable','grzeroalloc_blocks','cache_subtable_4','cache_subtable_12'], 'defines':['CTOR','CTOR_BMP'],
   'replay':'c13_cmap', 'witness_defines':['CTOR','CTOR_BMP'], 'witness_vars':['w_x'],
@@ -88,7 +91,11 @@ typedef int32 fixed;
             'subs':[[r'struct CmapSubTableFormat4 : CmapSubTable\s*\{', 'struct CmapSubTableFormat4 { uint16 format, length, language; /* base class CmapSubTable */', 1], [r'\};', '} CmapSubTableFormat4;', 1]]}@*/
 /*@extract {'file':'src/inc/TtfTypes.h', 'kind':'range', 'start': r'struct CmapSubTableFormat12\s*\{', 'end': r'\};', 'end_inclusive': True, 'pre':'typedef ',
             'subs':[[r'\};', '} CmapSubTableFormat12;', 1], [r'struct\s*\{', 'struct CmapGroup12 {', 1]]}@*/
+/*@extract {'file':'src/inc/TtfTypes.h', 'kind':'range', 'start': r'struct CharacterCodeMap\s*\{', 'end': r'\};', 'end_inclusive': True, 'pre':'typedef ',
+            'subs':[[r'\};', '} CharacterCodeMap;', 1], [r'struct\s*\{', 'struct CmapEncRec {', 1]]}@*/
 #pragma pack(pop)
+_Static_assert(sizeof(CharacterCodeMap) == 12 && offsetof(CharacterCodeMap, encoding) == 4 && sizeof(struct CmapEncRec) == 8, "packed Sfnt layout");
+#define ENCREC(p, i) ((const struct CmapEncRec *)((const byte *)(p) + offsetof(CharacterCodeMap, encoding)) + (i))
 _Static_assert(sizeof(CmapSubTable) == 6 && sizeof(CmapSubTableFormat4) == 16 && sizeof(CmapSubTableFormat12) == 28, "packed Sfnt layout");
 _Static_assert(offsetof(CmapSubTableFormat4, end_code) == 14 && offsetof(CmapSubTableFormat12, group) == 16 && sizeof(struct CmapGroup12) == 12, "packed Sfnt layout");
 /* `pTable->group[i].f` indexes past the declared group[1] (the pre-C99 struct hack): the same address as pointer arithmetic, so that
@@ -177,6 +184,7 @@ size_t g_g, g_g12;     /* ghost index: any segment / group */
 size_t g_s; uint32 g_x;/* ghost: any segment / group, any code point */
 size_t g_r1, g_r;      /* ghost outputs of NextCodepoint: range index after the backward / forward scan */
 bool g_sorted;         /* lemma units: the table is ordered at all index pairs */
+size_t g_j;            /* ghost index: any record / entry */
 
 #ifdef ASSUME_SORTED
 #define SORTED4_AT(i, j) g_sorted
@@ -314,7 +322,7 @@ __CPROVER_ensures((nUnicodeId < 0x10FFFF && (nUnicodeId < g_x || nUnicodeId == 0
 /*@extract {'file':'src/TtfUtil.cpp', 'sig': r'unsigned int CmapSubtable4NextCodepoint\(const void \*pCmap31, unsigned int nUnicodeId, int \* pRangeKey\)',
    'emit':'unsigned int CmapSubtable4NextCodepoint(const void *pCmap31, unsigned int nUnicodeId, int *pRangeKey)', 'casts':True, 'strip':['Sfnt::'],
    'subs':[[r'be::swap<(\w+)>\(', r'be_swap_\1(', 0], [r'be::swap\(', 'be_swap(', 0], [r'be::peek<(\w+)>\(', r'be_peek_\1(', 0]],
-   'inserts':[[r'while \(iRange < nRange - 1', 'g_r1 = (size_t)iRange;', 'before'], [r'unsigned int nStartCode', 'g_r = (size_t)iRange;', 'before']],
+   'inserts':[[r'while\s*\(\s*iRange\s*<', 'g_r1 = (size_t)iRange;', 'before'], [r'unsigned int nStartCode', 'g_r = (size_t)iRange;', 'before']],
    'loops':{1: """__CPROVER_assigns(iRange)
                   __CPROVER_loop_invariant(iRange >= 0 && iRange < nRange)
                   __CPROVER_decreases(iRange)""",
@@ -339,7 +347,7 @@ __CPROVER_ensures((nUnicodeId < 0x10FFFF && (nUnicodeId < g_x || nUnicodeId == 0
 /*@extract {'file':'src/TtfUtil.cpp', 'sig': r'unsigned int CmapSubtable12NextCodepoint\(const void \*pCmap310, unsigned int nUnicodeId, int \* pRangeKey\)',
    'emit':'unsigned int CmapSubtable12NextCodepoint(const void *pCmap310, unsigned int nUnicodeId, int *pRangeKey)', 'casts':True, 'strip':['Sfnt::'],
    'subs':[[r'be::swap<(\w+)>\(', r'be_swap_\1(', 0], [r'be::swap\(', 'be_swap(', 0], [r'pTable->group\[([^\]]+)\]\.', r'GROUP12(pTable, \1)->', 0]],
-   'inserts':[[r'while \(iRange < nRange - 1', 'g_r1 = (size_t)iRange;', 'before'], [r'unsigned int nStartCode', 'g_r = (size_t)iRange;', 'before']],
+   'inserts':[[r'while\s*\(\s*iRange\s*<', 'g_r1 = (size_t)iRange;', 'before'], [r'unsigned int nStartCode', 'g_r = (size_t)iRange;', 'before']],
    'loops':{1: """__CPROVER_assigns(iRange)
                   __CPROVER_loop_invariant(iRange >= 0 && iRange < nRange)
                   __CPROVER_decreases(iRange)""",
@@ -347,6 +355,35 @@ __CPROVER_ensures((nUnicodeId < 0x10FFFF && (nUnicodeId < g_x || nUnicodeId == 0
                   __CPROVER_loop_invariant(iRange >= 0 && (size_t)iRange >= g_r1 && iRange < nRange)
                   __CPROVER_loop_invariant(g_s < g_r1 || g_s >= (size_t)iRange || mGE(g_t12, g_s) < nUnicodePrev)
                   __CPROVER_decreases(nRange - iRange)"""}}@*/
+
+/* ---- FindCmapSubtable */
+#ifdef FIND
+const byte *g_cm; size_t g_cmsz; size_t g_fi;
+#define mNSUB(t)        mU16(t, 2)
+#define mMATCH(t, j, plat, enc) ((int)mU16(t, 4 + 8 * (size_t)(j)) == (plat) && ((enc) == -1 || (int)mU16(t, 6 + 8 * (size_t)(j)) == (enc)))
+/* a record of a table whose record array fits (else FindCmapSubtable refuses the table: NULL) */
+static bool rec_match(const byte *t, size_t j, int plat, int enc) { return 4 + 8 * (size_t)U16(t, 2) <= g_cmsz && j < U16(t, 2) && (int)U16(t, 4 + 8 * j) == plat && (enc == -1 || (int)U16(t, 6 + 8 * j) == enc); }
+static uint32 rec_offset(const byte *t, size_t j) { return U32(t, 8 + 8 * j); }
+const void *FindCmapSubtable(const void *pCmap, int nPlatformId, int nEncodingId, size_t length)
+/* Face::Table: the table passed CheckTable (size >= sizeof(CharacterCodeMap)); bmp_/smp_subtable pass its size (never 0) */
+__CPROVER_requires(pCmap == g_cm && OFF(g_cm) == 0 && OBJSZ(g_cm) == g_cmsz && length == g_cmsz && g_cmsz >= 12)
+__CPROVER_assigns(g_fi)
+/* only the first matching record counts */
+__CPROVER_ensures(rec_match(g_cm, g_j, nPlatformId, nEncodingId) ==> (g_fi <= g_j && rec_match(g_cm, g_fi, nPlatformId, nEncodingId)))
+/* a result is that record's subtable, inside the table */
+__CPROVER_ensures(__CPROVER_return_value != NULL ==> (rec_match(g_cm, g_fi, nPlatformId, nEncodingId) && __CPROVER_return_value == g_cm + rec_offset(g_cm, g_fi)
+                  && rec_offset(g_cm, g_fi) <= length - 2
+                  && (U16(g_cm, rec_offset(g_cm, g_fi)) != 4  || rec_offset(g_cm, g_fi) <= length - 4)
+                  && (U16(g_cm, rec_offset(g_cm, g_fi)) != 12 || rec_offset(g_cm, g_fi) <= length - 6)));
+/*@extract {'if':'FIND', 'file':'src/TtfUtil.cpp', 'sig': r'const void \* FindCmapSubtable\(const void \* pCmap, int nPlatformId, (?:/\*[^*]*\*/)? int nEncodingId, (?:/\*[^*]*\*/)? size_t length\)',
+   'emit':'const void *FindCmapSubtable(const void *pCmap, int nPlatformId, int nEncodingId, size_t length)', 'casts':True, 'strip':['Sfnt::'],
+   'subs':[[r'be::swap<(\w+)>\(', r'be_swap_\1(', 0], [r'be::swap\(', 'be_swap(', 0], [r'be::peek<(\w+)>\(', r'be_peek_\1(', 0], [r'be::read<(\w+)>\((\w+)\)', r'be_read_\1(&\2)', 0],
+           [r'pTable->encoding\[([^\]]+)\]\.', r'ENCREC(pTable, \1)->', 0]],
+   'inserts':[[r'uint32 offset\s*=', 'g_fi = (size_t)i;', 'before']],
+   'loops':{1: """__CPROVER_assigns(i, g_fi)
+                  __CPROVER_loop_invariant(i >= 0 && i <= csuPlatforms && (g_j >= (size_t)i || !mMATCH(g_cm, g_j, nPlatformId, nEncodingId)))
+                  __CPROVER_decreases(csuPlatforms - i)"""}}@*/
+#endif
 
 /* ================================================================== src/CmapCache.cpp */
 typedef struct Face Face;
@@ -571,7 +608,7 @@ __CPROVER_ensures((BUILT && g_x > 0xFFFF && g_x < 0x10FFFF) ==> ENTRY == ((g_smp
 /* ================================================================== the Silf pseudo-glyph fallback */
 typedef struct Pseudo { uint32 uid; uint32 gid; } Pseudo;                                 /* Silf.h */
 typedef struct Silf { Pseudo *m_pseudos; uint16 m_numPseudo; } Silf;
-size_t g_j, g_w; const Silf *g_silf; uint16 g_pseudo_ret;
+size_t g_w; const Silf *g_silf; uint16 g_pseudo_ret;
 uint16 Silf_findPseudo(const Silf *self, uint32 uid)
 #if defined(UNIT_c13_pseudo)
 __CPROVER_requires(self == g_silf && OFF(self->m_pseudos) == 0 && OBJSZ(self->m_pseudos) == self->m_numPseudo * sizeof(Pseudo))
@@ -811,6 +848,18 @@ void h_direct(void)
     d->_bmp = mk_table4();
     d->_smp = nondet_bool() ? NULL : mk_table12();
     uint16 r = DirectCmap_lookup(d, nondet_uint());
+    (void)r;
+    CANARY();
+}
+#endif
+
+#ifdef UNIT_c13_find
+void h_find(void)
+{
+    size_t sz = nondet_size_t(); __CPROVER_assume(sz >= 12 && sz <= MAXN);
+    byte *p = malloc(sz); __CPROVER_assume(p != NULL);
+    g_cm = p; g_cmsz = sz; g_j = nondet_size_t(); g_fi = nondet_size_t();
+    const void *r = FindCmapSubtable(p, nondet_int(), nondet_int(), sz);
     (void)r;
     CANARY();
 }
